@@ -220,6 +220,20 @@ pub use self::sorter::{
 };
 pub use self::writer::{Writer, WriterBuilder};
 
+/// Hooks for external verification harnesses, only compiled with the `verif` feature.
+#[cfg(feature = "verif")]
+pub mod verif {
+    /// Encodes `value` with the entry length framing into `bytes` and returns the encoded prefix.
+    pub fn varint_encode32(bytes: &mut [u8], value: u32) -> &[u8] {
+        crate::varint::varint_encode32(bytes, value)
+    }
+
+    /// Decodes a length from the front of `data` into `value`, returns the number of bytes consumed.
+    pub fn varint_decode32(data: &[u8], value: &mut u32) -> usize {
+        crate::varint::varint_decode32(data, value)
+    }
+}
+
 pub type Result<T, U = Infallible> = std::result::Result<T, Error<U>>;
 
 /// Sometimes we need to use an unsafe trick to make the compiler happy.
